@@ -37,6 +37,9 @@ Inductive act :=
 | ATasksAdd
 | ATasksDone
 | ATasksGive           (* obligation handed to the environment (Returner) *)
+| ARebind (l : lockid) (* the program variable through which mutex l is named is re-assigned
+                          (p = p.next): only allowed while l is not held, so that a lock name
+                          always denotes the same object for as long as it is held *)
 | AMark (line : nat).  (* source position, no effect *)
 
 Inductive stmt :=
@@ -75,6 +78,7 @@ Inductive violation :=
 | VSenderDouble
 | VSenderNoMutex                     (* sendCond touched without Conn.mu *)
 | VTransportNoSender                 (* outbound transport operation without the sender lock *)
+| VRebindHeld (l : lockid)           (* variable naming a held mutex re-assigned *)
 | VTasksUnderflow                    (* Done / hand-over of an obligation the function does not own *)
 | VPrecondition (f : nat)            (* contract-only function called in a state its contract does not allow *)
 | VIllFormed.
@@ -119,6 +123,7 @@ Definition step (a : act) (σ : state) : state + violation :=
       | 0 => inr VTasksUnderflow
       | S n => inl (mkS (held σ) (sender σ) n)
       end
+  | ARebind l => if mem l (held σ) then inr (VRebindHeld l) else inl σ
   | AMark _ => inl σ
   end.
 
